@@ -102,7 +102,8 @@ func (x *Exec) doCallVals(p *Path, site ssa.Instruction, cc *ssa.CallCommon, fnv
 	if cc.IsInvoke() && fnv.Label != "" {
 		key = fnv.Label + "." + cc.Method.Name()
 	}
-	if len(p.frames) == 1 && x.fc != nil {
+	if x.fc != nil {
+		// at any inlining depth (deferred closures and small helpers included): the call log counts those calls too
 		for ck, cls := range x.fc.AtCalls {
 			if !eventMatches(key, ck) {
 				continue
@@ -1514,7 +1515,11 @@ func (x *Exec) guardCheck(p *Path, a *Addr, write bool, site ssa.Instruction) {
 			x.oblige(p, "guard", "immutable_write:"+a.Field, "false", []string{"C09"}, "write to field declared immutable: "+a.TKey+"."+a.Field)
 		}
 		if _, isSink := tc.Sinks[a.Field]; write && !tc.Immutable[a.Field] && !tc.Stable[a.Field] && !isSink && !tc.ExtSync && !x.isFreshObj(p, a.Obj) && !x.isSetup(tc) {
-			x.oblige(p, "guard", "undeclared_write:"+a.Field, "false", []string{"C09"}, "write to "+shortTypeKey(a.TKey)+"."+a.Field+", a field with no declared synchronisation")
+			props := []string{"C09"}
+			if tc.Shared {
+				props = nil // one instance serves concurrent requests: part of every property the function serves
+			}
+			x.oblige(p, "guard", "undeclared_write:"+a.Field, "false", props, "write to "+shortTypeKey(a.TKey)+"."+a.Field+", a field with no declared synchronisation")
 		}
 		return
 	}
